@@ -59,6 +59,21 @@ type Case struct {
 	SRID   int    `json:"srid"`
 	Proj   string `json:"proj"`   // toMercator | toWGS84 | affine
 	Layout string `json:"layout"` // memory layout of the argument of the read-only functions: shared | spare | plain (see layout_test.go)
+	// recipes (recipes_test.go): when set, the geometry is built from the recipe and G is ignored
+	Alias *AliasRecipe `json:"alias,omitempty"` // members of the value share memory with each other
+	Large *LargeRecipe `json:"large,omitempty"` // large structured value
+}
+
+// geometry resolves the value of the case (independent memory, value semantics).
+func (c Case) geometry() orb.Geometry {
+	switch {
+	case c.Alias != nil:
+		g, _ := c.Alias.build()
+		return deepCopy(g)
+	case c.Large != nil:
+		return c.Large.build()
+	}
+	return c.G.V
 }
 
 // tolerances (all stated here)
@@ -68,19 +83,59 @@ const (
 	moderate = 1e6   // own numeric models are only asserted when every |coordinate| <= moderate (no overflow / underflow effects)
 )
 
+// sumTol is relSum widened for long sums: a sum of n terms evaluated in another order differs by up
+// to about n * 2^-53 relative to the sum of |terms|.
+func (e *env) sumTol() float64 {
+	if e.nTerms == 0 {
+		e.nTerms = float64(len(vertices(e.g)) + 16)
+	}
+	return math.Max(relSum, 4e-16*e.nTerms)
+}
+
 type env struct {
-	c    Case
-	g    orb.Geometry // pristine input, never handed to orb
-	snap string
-	ro   orb.Geometry // copy handed to the read-only functions, laid out as c.Layout says
-	gd   *guard       // watches the whole backing arrays of ro, spare capacity included
-	mod  bool         // all coordinates moderate
-	box  orb.Bound
+	nTerms float64
+	c      Case
+	g      orb.Geometry // pristine input, never handed to orb
+	snap   string
+	ro     orb.Geometry // copy handed to the read-only functions, laid out as c.Layout says
+	gd     *guard       // watches the whole backing arrays of ro, spare capacity included
+	mod    bool         // all coordinates moderate
+	box    orb.Bound
 }
 
 func (e *env) fresh() orb.Geometry { return deepCopy(e.g) }
 
-func (e *env) newRO() { e.ro, e.gd = layOut(e.g, e.c.Layout) }
+func (e *env) newRO() {
+	if e.c.Alias != nil {
+		// the argument's members share memory with each other; the one point buffer is watched whole
+		g, full := e.c.Alias.build()
+		gd := &guard{}
+		gd.watch(full)
+		e.ro, e.gd = g, gd
+		return
+	}
+	e.ro, e.gd = layOut(e.g, e.c.Layout)
+}
+
+// arg is the argument for the in-place entry points: aliased when the case says so.
+func (e *env) arg() orb.Geometry {
+	if e.c.Alias != nil {
+		g, _ := e.c.Alias.build()
+		return g
+	}
+	return e.fresh()
+}
+
+// inPlaceOnAliased: round, project, simplify, clip and smartclip are documented to work in place /
+// use the argument as scratch space, so when members share memory a vertex is legitimately processed
+// more than once: for such arguments only totality (no panic) is demanded of them.
+func (e *env) inPlaceOnAliased(f func(g orb.Geometry)) bool {
+	if e.c.Alias == nil {
+		return false
+	}
+	f(e.arg())
+	return true
+}
 
 func (e *env) unchanged(fn string) error {
 	if s := snapshot(e.ro); s != e.snap {
@@ -89,8 +144,11 @@ func (e *env) unchanged(fn string) error {
 		return fmt.Errorf("%s modified its argument: before %s after %s", fn, show(e.g), after)
 	}
 	if err := e.gd.check(); err != nil {
+		// every element within len is unchanged (snapshot above): what changed is spare capacity beyond
+		// len (sentinel cells / capacity tails), which no caller can reach without re-slicing. Not a
+		// contradiction of "leaves its argument unchanged" (soundness rule of round L): a note.
 		e.newRO()
-		return fmt.Errorf("%s wrote into memory of its argument (%s layout): %v; argument %s", fn, e.c.Layout, err, show(e.g))
+		stats.Class("layout-note:" + fn + " wrote into spare capacity beyond len of its argument")
 	}
 	return nil
 }
@@ -139,7 +197,7 @@ var checks = []check{
 func checkCase(c Case) error { return checkCaseOnly(c, nil) }
 
 func checkCaseOnly(c Case, only map[string]bool) error {
-	e := &env{c: c, g: c.G.V, box: c.Box.Bound()}
+	e := &env{c: c, g: c.geometry(), box: c.Box.Bound()}
 	e.snap = snapshot(e.g)
 	e.newRO()
 	e.mod = maxAbs(e.g, c.Q.Pt(), e.box.Min, e.box.Max) <= moderate
@@ -208,6 +266,22 @@ func checkClone(e *env) error {
 	}
 	if (e.g == nil) != (got == nil) && !isNothing(e.g) {
 		return fmt.Errorf("Clone nil-ness: input %s, output %s", show(e.g), show(got))
+	}
+	// the members of a clone do not share memory with each other, whatever the input did: give every
+	// coordinate slot its own number and read them back
+	k := 0.0
+	gen.Walk(got, func(p *float64) { k++; *p = k })
+	k = 0
+	var shared error
+	gen.Walk(got, func(p *float64) {
+		k++
+		if *p != k && shared == nil {
+			shared = fmt.Errorf("two coordinate slots of Clone(g) are the same memory (slot %v reads %v)", k, *p)
+		}
+	})
+	if shared != nil {
+		// sibling sharing inside one result is a fact about layout, not about values: a note
+		stats.Class("layout-note:members of Clone(g) share memory with each other")
 	}
 	// deep: writing through the clone must not reach the original
 	gen.Walk(got, func(p *float64) { *p = math.Float64frombits(^math.Float64bits(*p)) })
@@ -452,6 +526,9 @@ func roundClose(got, want orb.Geometry) (bool, string) {
 }
 
 func checkRound(e *env) error {
+	if e.inPlaceOnAliased(func(g orb.Geometry) { orb.Round(g) }) {
+		return nil
+	}
 	var got orb.Geometry
 	f := orb.DefaultRoundingFactor
 	if e.c.Factor == 0 {
@@ -648,7 +725,7 @@ func checkPlanarArea(e *env) error {
 	}
 	want, scale := areaModel(e.g, func(r orb.Ring) float64 { return planar.Area(r) }, false)
 	if finite(want) && finite(scale) && finite(got) {
-		if !closeTo(got, want, scale, relSum) {
+		if !closeTo(got, want, scale, e.sumTol()) {
 			return fmt.Errorf("Area = %v, combination of the ring areas (|outer| - holes, summed over members) = %v", got, want)
 		}
 	} else {
@@ -757,7 +834,7 @@ func checkLength(e *env, name string, f func(orb.Geometry) float64, df orb.Dista
 		stats.Class("skip:non-finite length")
 		return nil
 	}
-	if !closeTo(got, want, want, relSum) {
+	if !closeTo(got, want, want, e.sumTol()) {
 		return fmt.Errorf("%s = %v, sum of segment distances over all members = %v", name, got, want)
 	}
 	return nil
@@ -812,7 +889,7 @@ func checkGeoArea(e *env) error {
 		stats.Class("skip:non-finite geo area")
 		return nil
 	}
-	if !closeTo(got, want, scale, relSum) {
+	if !closeTo(got, want, scale, e.sumTol()) {
 		return fmt.Errorf("geo.Area = %v, combination of geo.SignedArea of the rings = %v", got, want)
 	}
 	// independent anchor: own spherical ring area
@@ -1183,6 +1260,9 @@ func checkClip(e *env) error {
 			return err
 		}
 	}
+	if e.inPlaceOnAliased(func(g orb.Geometry) { clip.Geometry(e.box, g) }) {
+		return nil
+	}
 	got := clip.Geometry(e.box, e.fresh())
 	want := expClip(e.box, e.fresh())
 	if ok, why := equiv(got, want); !ok {
@@ -1305,6 +1385,10 @@ func dropEmptyCollections(g orb.Geometry) orb.Geometry {
 }
 
 func checkSmartclip(e *env) error {
+	if e.inPlaceOnAliased(func(g orb.Geometry) { smartclip.Geometry(e.box, g, orb.CCW) }) {
+		smartclip.Geometry(e.box, e.arg(), orb.CW)
+		return nil
+	}
 	for _, o := range []orb.Orientation{orb.CCW, orb.CW} {
 		if twoVertexRingFamily(e.box, e.g) && twoVertexRingBroken() {
 			stats.Excluded(keyTwoVertexRing)
@@ -1370,6 +1454,9 @@ func expProject(g orb.Geometry, pr orb.Projection) orb.Geometry {
 
 func checkProject(e *env) error {
 	pr := projection(e.c.Proj)
+	if e.inPlaceOnAliased(func(g orb.Geometry) { project.Geometry(g, pr) }) {
+		return nil
+	}
 	got := project.Geometry(e.fresh(), pr)
 	want := expProject(e.fresh(), pr)
 	if ok, why := equiv(got, want); !ok {
@@ -1464,6 +1551,9 @@ func checkSimplify(e *env) error {
 		return nil
 	}
 	for _, sp := range simplifiers(e.c) {
+		if e.inPlaceOnAliased(func(g orb.Geometry) { sp.mk().Simplify(g) }) {
+			continue
+		}
 		got := sp.mk().Simplify(e.fresh())
 		want := expSimplify(sp.mk(), e.fresh())
 		if ok, why := equiv(got, want); !ok {
@@ -1951,6 +2041,7 @@ func decodeBSON(b []byte) (interface{}, error) {
 
 func checkGeoJSON(e *env) error {
 	model := modelGeoJSON(e.g)
+	modelText := modelGeoJSONBytes(nil, e.g)
 
 	// ---- geometry, JSON
 	jg := geojson.NewGeometry(e.ro)
@@ -1961,12 +2052,14 @@ func checkGeoJSON(e *env) error {
 	if err != nil {
 		return fmt.Errorf("Geometry.MarshalJSON: %v", err)
 	}
-	tree, err := decodeJSON(js)
-	if err != nil {
-		return fmt.Errorf("Geometry.MarshalJSON wrote invalid JSON %q: %v", js, err)
-	}
-	if ok, why := treeEqual(tree, model); !ok {
-		return fmt.Errorf("Geometry.MarshalJSON = %s, differs from the GeoJSON document of g: %s", clipStr(string(js)), why)
+	if !bytes.Equal(js, modelText) { // not the own writer's text: compare as documents
+		tree, err := decodeJSON(js)
+		if err != nil {
+			return fmt.Errorf("Geometry.MarshalJSON wrote invalid JSON %q: %v", clipStr(string(js)), err)
+		}
+		if ok, why := treeEqual(tree, model); !ok {
+			return fmt.Errorf("Geometry.MarshalJSON = %s, differs from the GeoJSON document of g: %s", clipStr(string(js)), why)
+		}
 	}
 	js2, err := json.Marshal(geojson.NewGeometry(e.ro))
 	if err != nil || !bytes.Equal(js2, js) {
@@ -2021,13 +2114,16 @@ func checkGeoJSON(e *env) error {
 	if err != nil {
 		return fmt.Errorf("Feature.MarshalJSON: %v", err)
 	}
-	ft, err := decodeJSON(fj)
-	if err != nil {
-		return fmt.Errorf("Feature.MarshalJSON wrote invalid JSON %q: %v", fj, err)
-	}
-	wantF := map[string]interface{}{"type": "Feature", "geometry": model, "properties": nil}
-	if ok, why := treeEqual(ft, wantF); !ok {
-		return fmt.Errorf("Feature.MarshalJSON = %s, differs from the feature document of g: %s", clipStr(string(fj)), why)
+	featText := append(append([]byte(`{"type":"Feature","geometry":`), modelText...), `,"properties":null}`...)
+	if !bytes.Equal(fj, featText) {
+		ft, err := decodeJSON(fj)
+		if err != nil {
+			return fmt.Errorf("Feature.MarshalJSON wrote invalid JSON %q: %v", clipStr(string(fj)), err)
+		}
+		wantF := map[string]interface{}{"type": "Feature", "geometry": model, "properties": nil}
+		if ok, why := treeEqual(ft, wantF); !ok {
+			return fmt.Errorf("Feature.MarshalJSON = %s, differs from the feature document of g: %s", clipStr(string(fj)), why)
+		}
 	}
 	fb, err := geojson.NewFeature(e.ro).MarshalBSON()
 	if uerr := e.unchanged("geojson.NewFeature(g).MarshalBSON"); uerr != nil {
